@@ -160,6 +160,77 @@ theorem C11_notations_agree (c r ac ar : Nat) (hc : 1 ≤ c ∧ c ≤ MAX_COL) (
   · rw [create_r1c1Rel, e3, e4]
   · simp [cellOfTuple, Bounds.hasNone, mkCell, Nat.not_lt.mpr hlim, Except.map]
 
+/-! R1C1 ranges (absolute form).  Whole rows / columns in absolute R1C1 (`R1:R3`, `C1:C2`) are read by the code as A1
+   text (columns R / C), and the relative range forms are covered by the correspondence run only. -/
+
+/-- absolute R1C1 text of a range: `R<r1>C<c1>:R<r2>C<c2>` -/
+def r1c1AbsRange (c1 r1 c2 r2 : Nat) : Str := r1c1Abs c1 r1 ++ ':' :: r1c1Abs c2 r2
+
+theorem a1Boundaries_r1c1_tail (r : Nat) (tail : Str) : a1Boundaries ('R' :: (natStr r ++ 'C' :: tail)) = none := by
+  have d1 : dropDollar ('R' :: (natStr r ++ 'C' :: tail)) = 'R' :: (natStr r ++ 'C' :: tail) := by
+    simp [dropDollar]
+  have s1 : spanP isLetter (['R'] ++ (natStr r ++ 'C' :: tail)) = (['R'], natStr r ++ 'C' :: tail) :=
+    spanP_append _ _ _ (by decide) (fun x hx => (natStr_head' r _ x hx).2.1)
+  have d2 : dropDollar (natStr r ++ 'C' :: tail) = natStr r ++ 'C' :: tail :=
+    dropDollar_id _ (fun x hx => (natStr_head' r _ x hx).2.2.1)
+  have s2 : spanP isDigit (natStr r ++ 'C' :: tail) = (natStr r, 'C' :: tail) :=
+    spanP_append _ _ _ (natStr_digits r) (noHead_cons _ _ _ (by decide))
+  simp only [List.singleton_append] at s1
+  unfold a1Boundaries a1Half
+  simp [d1, s1, d2, s2]
+
+theorem r1c1AbsRange_eq (c1 r1 c2 r2 : Nat) :
+    r1c1AbsRange c1 r1 c2 r2 =
+      'R' :: (natStr r1 ++ 'C' :: (natStr c1 ++ ':' :: 'R' :: (natStr r2 ++ 'C' :: natStr c2))) := by
+  simp [r1c1AbsRange, r1c1Abs, List.append_assoc]
+
+theorem r1c1Match_absRange (c1 r1 c2 r2 : Nat) :
+    r1c1Match (r1c1AbsRange c1 r1 c2 r2) =
+      some ⟨some (.abs r1), some (.abs c1), true, some (.abs r2), some (.abs c2)⟩ := by
+  have h1 := rcItem_abs 'R' r1 ('C' :: (natStr c1 ++ ':' :: 'R' :: (natStr r2 ++ 'C' :: natStr c2)))
+    (noHead_cons _ _ _ (by decide))
+  have h2 := rcItem_abs 'C' c1 (':' :: 'R' :: (natStr r2 ++ 'C' :: natStr c2)) (noHead_cons _ _ _ (by decide))
+  have h3 := rcItem_abs 'R' r2 ('C' :: natStr c2) (noHead_cons _ _ _ (by decide))
+  have h4 := rcItem_abs 'C' c2 [] (noHead_nil _)
+  simp only [List.append_nil] at h4
+  rw [r1c1AbsRange_eq]
+  unfold r1c1Match
+  simp only [h1, h2, h3, h4, ↓reduceIte]
+
+theorem bang_not_mem_r1c1AbsRange (c1 r1 c2 r2 : Nat) : '!' ∉ r1c1AbsRange c1 r1 c2 r2 := by
+  intro h
+  simp only [r1c1AbsRange, List.mem_append, List.mem_cons] at h
+  rcases h with h | h | h
+  · exact bang_not_mem_r1c1Abs _ _ h
+  · cases h
+  · exact bang_not_mem_r1c1Abs _ _ h
+
+/-- "the A1, R1C1 and (col,row) tuple notations of one location denote the same address", for ranges: the absolute
+    R1C1 text `R<r1>C<c1>:R<r2>C<c2>` of two different corners denotes the AddressRange with those corners — the same
+    address the A1 text and the tuple denote (`C11_print_parse_range`, `rangeOfTuple`) -/
+theorem C11_r1c1_abs_range (c1 r1 c2 r2 : Nat) (h1 : c1 ≤ COL_LIMIT) (h2 : c2 ≤ COL_LIMIT)
+    (hne : (c1, r1) ≠ (c2, r2)) (anchor : Option (Nat × Nat)) :
+    create (r1c1AbsRange c1 r1 c2 r2) [] anchor = .ok (.addr ⟨true, ⟨[], c1, r1, c2, r2⟩⟩) ∧
+    (rangeOfTuple [] ⟨some c1, some r1, some c2, some r2⟩).map Created.addr =
+      .ok (.addr ⟨true, ⟨[], c1, r1, c2, r2⟩⟩) := by
+  have hne' : r1c1AbsRange c1 r1 c2 r2 ∉ errorCodes :=
+    not_errorCode_of_head _ 'R' (by rw [r1c1AbsRange_eq]; rfl) (by decide)
+  have hcomb : Gen.r1c1Combos.contains (true, true, true, true) = true := by decide
+  have hmem : (true, true, true, true) ∈ Gen.r1c1Combos := by decide
+  have hb : ¬ (c1 = c2 ∧ r1 = r2) := by
+    intro h; apply hne; rw [h.1, h.2]
+  have hl : ¬ (c1 > COL_LIMIT ∨ c2 > COL_LIMIT) := by omega
+  constructor
+  · unfold create
+    rw [if_neg hne', split_none _ (bang_not_mem_r1c1AbsRange c1 r1 c2 r2)]
+    have ha1 : a1Boundaries (r1c1AbsRange c1 r1 c2 r2) = none := by
+      rw [r1c1AbsRange_eq]; exact a1Boundaries_r1c1_tail r1 _
+    simp only [rangeBoundaries, boundsSimple, ha1, r1c1Boundaries, r1c1Match_absRange, rcResolve?, rcResolve]
+    have hb' : c1 = c2 → ¬ r1 = r2 := fun x y => hb ⟨x, y⟩
+    simp [ofBounds, Bounds.hasNone, mkRange, hmem, hl]
+    rw [if_pos hb']
+  · simp [rangeOfTuple, Bounds.hasNone, mkRange, hb, hl, Except.map]
+
 /-! ### "A range enumerates exactly its height x width cells, each contained in it" -/
 
 /-- the number of enumerated cells is height × width -/
@@ -704,6 +775,151 @@ theorem C11_operand_assoc (i : Bool) (a b c : Rect) (ha : a.WF) (hb : b.WF) (hc 
   cases i
   · exact C11_union_assoc a b c ha hb hc hab hbc
   · exact C11_inter_assoc a b c ha hb hc hab hbc
+
+/-- `&` / `**` of two bounded rectangles, any sheet qualification: a rectangle result is well-formed, within the
+    column-letter limit, carries the merged sheet, and the sheets did not clash -/
+theorem op_spec_sheets (i : Bool) (a b : Rect) (ha : a.WF) (hb : b.WF)
+    (la : a.c2 ≤ COL_LIMIT) (lb : b.c2 ≤ COL_LIMIT) :
+    ∀ r, a.op i b = .rect r → r.WF ∧ r.c1 ≤ COL_LIMIT ∧ r.c2 ≤ COL_LIMIT ∧
+      r.sheet = mergeSheet a.sheet b.sheet ∧ ¬ Clash a.sheet b.sheet := by
+  intro r hr
+  have rule := C11_sheet_rule a b
+  by_cases hcl : Clash a.sheet b.sheet
+  · have := rule.1 hcl
+    cases i <;> simp only [Rect.op, Bool.false_eq_true, ↓reduceIte, this] at hr <;> cases hr
+  · have e : a.op i b = (a.noSheet.op i b.noSheet).setSheet (mergeSheet a.sheet b.sheet) := by
+      cases i
+      · exact (rule.2 hcl).2
+      · exact (rule.2 hcl).1
+    rw [e] at hr
+    have sp := op_spec i a.noSheet b.noSheet ha hb rfl la lb
+    cases h0 : a.noSheet.op i b.noSheet with
+    | rect r0 =>
+      rw [h0] at hr
+      simp only [Res.setSheet, Res.rect.injEq] at hr
+      subst hr
+      obtain ⟨w, _, l1, l2⟩ := sp.2 r0 h0
+      exact ⟨w, l1, l2, rfl, hcl⟩
+    | null => rw [h0] at hr; cases hr
+    | value => rw [h0] at hr; cases hr
+
+theorem combine_toAddr_sheets (i : Bool) (a b : Rect) (ha : a.WF) (hb : b.WF)
+    (la : a.c2 ≤ COL_LIMIT) (lb : b.c2 ≤ COL_LIMIT) :
+    Operand.combine i (.addr a.toAddr) (.addr b.toAddr) = .ok (a.op i b).toOperand := by
+  have sp := op_spec_sheets i a b ha hb la lb
+  have e : combineCore i a b a.toAddr.height a.toAddr.width b.toAddr.height b.toAddr.width = a.op i b := by
+    rw [(toAddr_size a ha).1, (toAddr_size a ha).2, (toAddr_size b hb).1, (toAddr_size b hb).2]
+    cases i <;> rfl
+  simp only [Operand.combine, Addr.combine]
+  have e' : combineCore i a.toAddr.rect b.toAddr.rect a.toAddr.height a.toAddr.width b.toAddr.height
+      b.toAddr.width = a.op i b := e
+  rw [e']
+  cases hop : a.op i b with
+  | rect r =>
+    have := sp r hop
+    simp only
+    rw [if_neg (by omega)]
+  | null => rfl
+  | value => rfl
+
+theorem chainL_sheets (i : Bool) (x : Res) (c : Rect) (hc : c.WF) (lc : c.c2 ≤ COL_LIMIT)
+    (hx : ∀ r, x = .rect r → r.WF ∧ r.c2 ≤ COL_LIMIT) :
+    Operand.combine i x.toOperand (.addr c.toAddr) = .ok (x.andThen (fun r => r.op i c)).toOperand := by
+  cases x with
+  | rect r => exact combine_toAddr_sheets i r c (hx r rfl).1 hc (hx r rfl).2 lc
+  | null => rfl
+  | value => rfl
+
+theorem chainR_sheets (i : Bool) (a : Rect) (y : Res) (ha : a.WF) (la : a.c2 ≤ COL_LIMIT)
+    (hy : ∀ r, y = .rect r → r.WF ∧ r.c2 ≤ COL_LIMIT) :
+    Operand.combine i (.addr a.toAddr) y.toOperand = .ok (y.andThen (fun r => a.op i r)).toOperand := by
+  cases y with
+  | rect r => exact combine_toAddr_sheets i a r ha (hy r rfl).1 la (hy r rfl).2
+  | null => rfl
+  | value => rfl
+
+/-- both groupings of three address operands, as results of the rectangle-level operations -/
+theorem operand_chains (i : Bool) (a b c : Rect) (ha : a.WF) (hb : b.WF) (hc : c.WF)
+    (la : a.c2 ≤ COL_LIMIT) (lb : b.c2 ≤ COL_LIMIT) (lc : c.c2 ≤ COL_LIMIT) :
+    (Operand.combine i (.addr a.toAddr) (.addr b.toAddr)).bind (fun x => Operand.combine i x (.addr c.toAddr)) =
+      .ok ((a.op i b).andThen (fun r => r.op i c)).toOperand ∧
+    (Operand.combine i (.addr b.toAddr) (.addr c.toAddr)).bind (fun y => Operand.combine i (.addr a.toAddr) y) =
+      .ok ((b.op i c).andThen (fun r => a.op i r)).toOperand := by
+  have s1 := op_spec_sheets i a b ha hb la lb
+  have s2 := op_spec_sheets i b c hb hc lb lc
+  rw [combine_toAddr_sheets i a b ha hb la lb, combine_toAddr_sheets i b c hb hc lb lc]
+  simp only [Except.bind]
+  exact ⟨chainL_sheets i _ c hc lc (fun r hr => ⟨(s1 r hr).1, (s1 r hr).2.2.1⟩),
+    chainR_sheets i a _ ha la (fun r hr => ⟨(s2 r hr).1, (s2 r hr).2.2.1⟩)⟩
+
+/-- an error result of the rectangle level is an error value of the operators -/
+theorem toOperand_err (x : Res) (h : ∀ r, x ≠ .rect r) : ∃ e, x.toOperand = .err e := by
+  cases x with
+  | rect r => exact absurd rfl (h r)
+  | null => exact ⟨_, rfl⟩
+  | value => exact ⟨_, rfl⟩
+
+/-- "both commutative, associative and idempotent", at the level of the operators themselves (`Operand.combine` =
+    `&` / `**` on address objects and error values, errors propagating) and for EVERY sheet qualification of the three
+    address operands:
+    * `**` is associative, whatever the sheets (two different named sheets: #VALUE! either way);
+    * `&` is associative whenever the three sheets are pairwise combinable (any mix of sheet-less and one sheet);
+    * `&` with two different named sheets among the operands: both groupings are error values (they can differ in
+      which: `C11_inter_assoc_clash_witness`). -/
+theorem C11_operand_assoc_sheets (i : Bool) (a b c : Rect) (ha : a.WF) (hb : b.WF) (hc : c.WF)
+    (la : a.c2 ≤ COL_LIMIT) (lb : b.c2 ≤ COL_LIMIT) (lc : c.c2 ≤ COL_LIMIT) :
+    let L := (Operand.combine i (.addr a.toAddr) (.addr b.toAddr)).bind
+      (fun x => Operand.combine i x (.addr c.toAddr))
+    let R := (Operand.combine i (.addr b.toAddr) (.addr c.toAddr)).bind
+      (fun y => Operand.combine i (.addr a.toAddr) y)
+    (i = false → L = R) ∧
+    (¬ Clash a.sheet b.sheet → ¬ Clash b.sheet c.sheet → ¬ Clash a.sheet c.sheet → L = R) ∧
+    (Clash a.sheet b.sheet ∨ Clash b.sheet c.sheet ∨ Clash a.sheet c.sheet →
+      ∃ e1 e2, L = .ok (.err e1) ∧ R = .ok (.err e2)) := by
+  obtain ⟨eL, eR⟩ := operand_chains i a b c ha hb hc la lb lc
+  simp only
+  rw [eL, eR]
+  refine ⟨?_, ?_, ?_⟩
+  · intro hi; subst hi
+    have := C11_union_assoc_all_sheets a b c ha hb hc
+    simp only [Rect.op, Bool.false_eq_true, ↓reduceIte]
+    rw [this]
+  · intro h1 h2 h3
+    have := C11_assoc_sheets a b c ha hb hc h1 h2 h3
+    cases i
+    · simp only [Rect.op, Bool.false_eq_true, ↓reduceIte]; rw [this.2]
+    · simp only [Rect.op, ↓reduceIte]; rw [this.1]
+  · intro hcl
+    obtain ⟨k1, k2⟩ := clash_merge_any _ _ _ hcl
+    have s1 := op_spec_sheets i a b ha hb la lb
+    have s2 := op_spec_sheets i b c hb hc lb lc
+    have nl : ∀ r, (a.op i b).andThen (fun r => r.op i c) ≠ .rect r := by
+      intro r hr
+      cases h1 : a.op i b with
+      | rect r1 =>
+        rw [h1] at hr
+        simp only [Res.andThen] at hr
+        obtain ⟨w1, _, l1, sh1, nc1⟩ := s1 r1 h1
+        obtain ⟨_, _, _, _, nc⟩ := op_spec_sheets i r1 c w1 hc l1 lc r hr
+        rw [sh1] at nc
+        exact nc (k1 nc1)
+      | null => rw [h1] at hr; cases hr
+      | value => rw [h1] at hr; cases hr
+    have nr : ∀ r, (b.op i c).andThen (fun r => a.op i r) ≠ .rect r := by
+      intro r hr
+      cases h1 : b.op i c with
+      | rect r1 =>
+        rw [h1] at hr
+        simp only [Res.andThen] at hr
+        obtain ⟨w1, _, l1, sh1, nc1⟩ := s2 r1 h1
+        obtain ⟨_, _, _, _, nc⟩ := op_spec_sheets i a r1 ha w1 la l1 r hr
+        rw [sh1] at nc
+        exact nc (k2 nc1)
+      | null => rw [h1] at hr; cases hr
+      | value => rw [h1] at hr; cases hr
+    obtain ⟨e1, h1⟩ := toOperand_err _ nl
+    obtain ⟨e2, h2⟩ := toOperand_err _ nr
+    exact ⟨e1, e2, by rw [h1], by rw [h2]⟩
 
 /-! ### "offsets wrap at the sheet limits (16384 columns, 1048576 rows)" -/
 
